@@ -71,7 +71,8 @@ func (g G) drawCorrupt(label string) *Corrupt {
 		return &Corrupt{Kind: "replace", S: g.pick(label+".doc", "", "<", "<md:EntityDescriptor xmlns:md=\""+NSMD+"\"/>", "<EntityDescriptor/>", "<md:EntityDescriptor xmlns:md=\""+NSMD+"\" entityID=\"x\"><md:SPSSODescriptor/></md:EntityDescriptor>",
 			"<md:EntityDescriptor xmlns:md=\""+NSMD+"\" entityID=\"x\"><md:IDPSSODescriptor/></md:EntityDescriptor>", "\xff\xfe", "<?xml version=\"1.0\"?>")}
 	}
-	return &Corrupt{Kind: "cert", S: g.pick(label+".cert", "", " \n ", "\n\t\n", "-----BEGIN CERTIFICATE-----\n-----END CERTIFICATE-----", "-----BEGIN CERTIFICATE----- -----END CERTIFICATE-----", "AAAA", "not base64!", ecCertB64, "MIIB", Keys[0].CertB64[:200], "-----BEGIN CERTIFICATE-----\n"+Keys[0].CertB64+"\n-----END CERTIFICATE-----")}
+	return &Corrupt{Kind: "cert", S: g.pick(label+".cert", "", " \n ", "\n\t\n", "-----BEGIN CERTIFICATE-----\n-----END CERTIFICATE-----", "-----BEGIN CERTIFICATE----- -----END CERTIFICATE-----", "-----BEGIN CERTIFICATE-----END CERTIFICATE-----", "-----BEGIN CERTIFICATE----END CERTIFICATE-----", "-----BEGIN CERTIFICATE-END CERTIFICATE-----",
+		"-----BEGIN CERTIFICATE-----", "-----END CERTIFICATE-----", "-----END CERTIFICATE----------BEGIN CERTIFICATE-----", "-----", "AAAA", "not base64!", ecCertB64, "MIIB", Keys[0].CertB64[:200], "-----BEGIN CERTIFICATE-----\n"+Keys[0].CertB64+"\n-----END CERTIFICATE-----")}
 }
 
 // ecCertB64 is a syntactically valid X.509 certificate with an ECDSA P-256 key (non-RSA key type).
